@@ -1191,6 +1191,110 @@ impl Obs for C15 {
 }
 
 // =====================================================================================
+// C17 along games: the single-feature neighbours of *reached* states, built with the public
+// constructors around the state's own per-turn record, history and capture flag
+// =====================================================================================
+pub struct C17;
+
+impl Obs for C17 {
+    fn on_state(&mut self, v: &View, st: &mut Stats) -> Check {
+        if v.m.setup {
+            return Ok(());
+        }
+        // every state with a capture this turn or something pending, one in four of the others
+        let interesting = v.m.captured_this_turn || v.m.status != Status::None;
+        if !interesting && v.m.board.fingerprint() % 4 != (v.m.step as u64) % 4 {
+            return Ok(());
+        }
+        let eng = v.eng;
+        let statuses = crate::special::all_statuses();
+        let r = guard(|| {
+            use arimaa_engine_step::{Phase, PlayPhase};
+            let pp = eng.unwrap_play_phase();
+            let side = eng.is_p1_turn_to_move();
+            let step = eng.current_step();
+            let prev: Vec<PieceBoard> = pp.previous_piece_boards().to_vec();
+            let start_board = if step == 0 || prev.is_empty() { eng.piece_board() } else { prev[0].piece_board() };
+            let init = Zobrist::from_piece_board(start_board, side, 0);
+            let own = pp.push_pull_state();
+            let trapped = pp.piece_trapped_this_turn();
+            let mn = eng.move_number();
+            let twin = |status: PushPullState, side2: bool, b: &Board| -> u64 {
+                let pb = piece_board_of(b);
+                let h = Zobrist::from_piece_board(pb.piece_board(), side2, step);
+                let phase = Phase::PlayPhase(PlayPhase::new(init, pp.hash_history().clone(), prev.clone(), status, trapped));
+                GameState::new(side2, mn, phase, pb, h).transposition_hash()
+            };
+            let base = twin(own, side, &v.m.board);
+            let by_status: Vec<u64> = statuses.iter().map(|s| twin(*s, side, &v.m.board)).collect();
+            let other_side = twin(own, !side, &v.m.board);
+            // the content of a few squares (those the last step touched first)
+            let mut squares: Vec<u8> = vec![];
+            match v.m.status {
+                Status::PossiblePull { sq, .. } | Status::MustCompletePush { sq, .. } => squares.push(sq),
+                Status::None => {}
+            }
+            let f = v.m.board.fingerprint();
+            for k in 0..3u64 {
+                let q = ((f >> (8 * k)) % 64) as u8;
+                if !squares.contains(&q) {
+                    squares.push(q);
+                }
+            }
+            let mut by_content: Vec<(u8, Vec<u64>)> = vec![];
+            for &q in squares.iter() {
+                let mut hs = vec![];
+                for c in 0..13u8 {
+                    let code = if c == 0 { m::EMPTY } else if c <= 6 { m::mk(true, c) } else { m::mk(false, c - 6) };
+                    let mut b = v.m.board;
+                    b.0[q as usize] = code;
+                    hs.push(twin(own, side, &b));
+                }
+                by_content.push((q, hs));
+            }
+            (base, eng.transposition_hash(), by_status, other_side, by_content)
+        });
+        let (base, real, by_status, other_side, by_content) = match r {
+            Ok(x) => x,
+            Err(_) => {
+                st.bump("twin_construction_panicked");
+                return Ok(());
+            }
+        };
+        if base != real {
+            // the rebuilt state is not a faithful copy (another property's business): no twins
+            st.bump("rebuilt_state_hash_differs");
+            return Ok(());
+        }
+        st.eval();
+        let mut idx: Vec<usize> = (0..by_status.len()).collect();
+        idx.sort_by_key(|&i| by_status[i]);
+        for w in idx.windows(2) {
+            ensure!(by_status[w[0]] != by_status[w[1]], "C17:status", "two states that differ only in the pending push/pull ({:?} vs {:?}) have the same transposition hash {:#018x}; both are {} with its own per-turn record, history and capture flag (captured this turn: {})", statuses[w[0]], statuses[w[1]], by_status[w[0]], v.describe(), v.m.captured_this_turn);
+        }
+        ensure!(other_side != base, "C17:side", "the state {} and the same state with the other side to move have the same transposition hash", v.describe());
+        for (q, hs) in by_content.iter() {
+            for i in 0..13 {
+                for j in (i + 1)..13 {
+                    ensure!(hs[i] != hs[j], "C17:square_content", "two states that differ only in the content of {} have the same transposition hash; both are {} otherwise", m::sq_name(*q), v.describe());
+                }
+            }
+        }
+        if !st.frozen {
+            st.evaluations += 641 * 640 / 2;
+        }
+        if v.m.captured_this_turn {
+            st.bump("contexts_with_a_capture_this_turn");
+        }
+        if v.m.status != Status::None {
+            st.bump("contexts_with_something_pending");
+        }
+        st.nontrivial(fp_combine(v.m.fingerprint(), 17));
+        Ok(())
+    }
+}
+
+// =====================================================================================
 // C19
 // =====================================================================================
 pub struct C19;
@@ -1253,6 +1357,9 @@ impl Obs for C19 {
         }
         // ---- statistics
         let mut nt = false;
+        if vanr.len() > 64 {
+            st.bump("state_with_more_than_64_offered_actions");
+        }
         if !v.m.setup {
             match v.m.status {
                 Status::MustCompletePush { .. } => {
